@@ -16,7 +16,9 @@ Continent == [US |-> "NA", CA |-> "NA", FR |-> "EU"]
 Boxes == [B1 |-> [latlo |-> 5, lathi |-> 15, lonlo |-> 5, lonhi |-> 25],      \* A1, A2
           B2 |-> [latlo |-> 25, lathi |-> 35, lonlo |-> 5, lonhi |-> 15],     \* A3
           B3 |-> [latlo |-> -60, lathi |-> 60, lonlo |-> 0, lonhi |-> 60]]    \* all
-Flights == << [o |-> "A1", d |-> "A2", dist |-> 500, seats |-> 100, svc |-> "J", acft |-> "738", days |-> 0..13, min |-> 480],
+\* (no flight at all departs on days 5, 7 and 11: "every n-th day" counts days from the start date given, not
+\* from the first day that has a departure)
+Flights == << [o |-> "A1", d |-> "A2", dist |-> 500, seats |-> 100, svc |-> "J", acft |-> "738", days |-> (0..13) \ {5, 7, 11}, min |-> 480],
               [o |-> "A2", d |-> "A1", dist |-> 500, seats |-> 150, svc |-> "J", acft |-> "320", days |-> {0, 2, 4, 6, 8, 10, 12}, min |-> 570],
               [o |-> "A1", d |-> "A3", dist |-> 2000, seats |-> 200, svc |-> "F", acft |-> "738", days |-> {0, 3, 6, 9, 12}, min |-> 1439],
               [o |-> "A3", d |-> "A4", dist |-> 6000, seats |-> 300, svc |-> "J", acft |-> "77W", days |-> {1, 2}, min |-> 0],
@@ -70,7 +72,7 @@ FMatch(f, fl) == /\ fl.dist >= f.dist[1] /\ fl.dist <= f.dist[2]
                  /\ Hit(f.sp.orig, fl.o) /\ Hit(f.sp.dest, fl.d)
 
 \* ---- queries: start/end day (-1 = not given), every n-th day, limit/offset (-1 = not given)
-QParams == [start : {-1, 0, 1, 5, 13, 14}, end : {-1, 0, 5, 13}, nth : {1, 2, 3}, limit : {-1, 1, 5, 100}, offset : {-1, 0, 3, 40}]
+QParams == [start : {-1, 0, 1, 5, 7, 13, 14}, end : {-1, 0, 5, 13}, nth : {1, 2, 3}, limit : {-1, 1, 5, 100}, offset : {-1, 0, 3, 40}]
 DefaultQ == [start |-> -1, end |-> -1, nth |-> 1, limit |-> -1, offset |-> -1]
 LegalQ(q) == q.offset = -1 \/ q.limit # -1
 Matches(f, q) == {i \in Instances :
